@@ -29,8 +29,10 @@ class TagFlow:
     def __init__(self, cfg: CFG, init: State | None = None,
                  hook: Hook | None = None,
                  call_effect: Callable[[ast.Call, State, "TagFlow"],
-                                       None] | None = None):
+                                       None] | None = None,
+                 iter_elem: Callable[[frozenset], frozenset] | None = None):
         self.cfg = cfg
+        self.iter_elem = iter_elem or (lambda t: t)
         self.hook = hook
         self.call_effect = call_effect
         self.before: dict[Node, State] = {}
@@ -70,7 +72,7 @@ class TagFlow:
                              ast.DictComp)):
             loc = dict(local)
             for gen in expr.generators:
-                t = self.tags(gen.iter, state, loc)
+                t = self.iter_elem(self.tags(gen.iter, state, loc))
                 for n in ast.walk(gen.target):
                     if isinstance(n, ast.Name):
                         loc[n.id] = t
@@ -150,7 +152,7 @@ class TagFlow:
                     if d is not None:
                         s.pop(d, None)
         elif node.kind == "for" and isinstance(a, (ast.For, ast.AsyncFor)):
-            self._assign(a.target, self.tags(a.iter, s), s)
+            self._assign(a.target, self.iter_elem(self.tags(a.iter, s)), s)
         elif node.kind == "with" and isinstance(a, ast.withitem):
             if a.optional_vars is not None:
                 self._assign(a.optional_vars, self.tags(a.context_expr, s), s)
